@@ -521,6 +521,8 @@ def verbatim(run, p, rt):
             return fs, 'raises %s' % e
         except Unsupported as e:
             raise AnalysisError('%s is not evaluable: %s' % (fn.short, e))
+        except TypeError as e:
+            return fs, 'raises TypeError (%s): text handed to a binary file or bytes to a text file' % e
         return fs, None
     for content in texts + blobs:
         binary = isinstance(content, bytes)
